@@ -117,10 +117,14 @@ Proof. exact hist_run_no_crash. Qed.
 (* 5. the encryption layer over ANY inner bytes with fewer than 2^32 chunks
       (M < 2^32 * CHUNK; the Rust `current_chunk_number += 1` on a u32 — Crash 419 — is the
       only arithmetic that needs this bound): load, read, seek with every whence and any
-      argument, both constructors, the fail-safe reader in both modes *)
+      argument, both constructors, the fail-safe reader in both modes.
+      seek additionally needs CHUNK <= 2^31 (production 2^17, scaled 2^6): the position, u32 chunk number * CHUNK +
+      cache position, then stays below 2^63 and `i64::try_from(current).unwrap()` of the SeekFrom::Current arm
+      (Crash 524) cannot fire; without that premise C08_eseek_total_gen: that unwrap is the ONLY panic site of seek,
+      reached only at a position >= 2^63, and it leaves the reader untouched *)
 Theorem C08_enc_reader_tame :
   forall CHUNK TAG ks tagc (S : Stream) (Iin : st S -> Prop) (pin : st S -> N) (M : N),
-  TameInner S Iin pin M -> 0 < CHUNK -> M < 2 ^ 32 * CHUNK ->
+  TameInner S Iin pin M -> 0 < CHUNK -> M < 2 ^ 32 * CHUNK -> CHUNK <= 2 ^ 31 ->
   Tame (EncReader CHUNK TAG ks tagc S) (Ienc CHUNK S Iin pin M) (pos_enc CHUNK S) M.
 Proof. exact enc_reader_tame. Qed.
 Theorem C08_eload_total :
@@ -128,9 +132,19 @@ Theorem C08_eload_total :
   TameInner S Iin pin M -> 0 < CHUNK -> M < 2 ^ 32 * CHUNK ->
   LoadSpec CHUNK S Iin pin M (eload CHUNK TAG ks tagc S).
 Proof. exact eload_spec. Qed.
-Theorem C08_eseek_total :
+Theorem C08_eseek_total_gen :
   forall CHUNK TAG ks tagc (S : Stream) (Iin : st S -> Prop) (pin : st S -> N) (M : N),
   TameInner S Iin pin M -> 0 < CHUNK -> M < 2 ^ 32 * CHUNK ->
+  forall s w, Ienc CHUNK S Iin pin M s ->
+    match eseek CHUNK TAG ks tagc S s w with
+    | (s', Ok q) => Ienc CHUNK S Iin pin M s' /\ (forall p, w = FromStart p -> pos_enc CHUNK S s' = p)
+    | (s', Err e) => Ienc CHUNK S Iin pin M s' /\ e <> EFuel
+    | (s', Crash c) => s' = s /\ c = 524 /\ 2 ^ 63 <= pos_enc CHUNK S s
+    end.
+Proof. exact eseek_tame_gen. Qed.
+Theorem C08_eseek_total :
+  forall CHUNK TAG ks tagc (S : Stream) (Iin : st S -> Prop) (pin : st S -> N) (M : N),
+  TameInner S Iin pin M -> 0 < CHUNK -> M < 2 ^ 32 * CHUNK -> CHUNK <= 2 ^ 31 ->
   forall s w, Ienc CHUNK S Iin pin M s ->
     match eseek CHUNK TAG ks tagc S s w with
     | (s', Ok q) => Ienc CHUNK S Iin pin M s' /\ (forall p, w = FromStart p -> pos_enc CHUNK S s' = p)
@@ -178,7 +192,7 @@ Proof. exact fsenc_tame. Qed.
 (* 6'. usable after error, encrypted archives: any key, nonce, body, names, history *)
 Theorem C08_usable_after_error_enc :
   forall (k : consts) (key nonce8 body : bytes) names ops,
-  0 < cCHUNK k -> len body < 2 ^ 32 * cCHUNK k ->
+  0 < cCHUNK k -> len body < 2 ^ 32 * cCHUNK k -> cCHUNK k <= 2 ^ 31 ->
   no_crash_rows (hist_enc k key nonce8 body names ops).
 Proof. exact hist_enc_no_crash. Qed.
 
@@ -465,7 +479,7 @@ Theorem C08_comp_reader_tame_rd :
 Proof. exact comp_rdonly_tame. Qed.
 (* ... so is the stack comp ∘ enc ∘ cursor over ANY bytes, and the block parser above it *)
 Theorem C08_comp_enc_stack_tame :
-  forall BLOCK dec, 0 < BLOCK -> forall CHUNK TAG ks tagc (w : bytes), 0 < CHUNK -> len w < 2 ^ 32 * CHUNK ->
+  forall BLOCK dec, 0 < BLOCK -> forall CHUNK TAG ks tagc (w : bytes), 0 < CHUNK -> len w < 2 ^ 32 * CHUNK -> CHUNK <= 2 ^ 31 ->
   forall si P0,
     Tame (RdOnly (CompReader BLOCK dec (EncReader CHUNK TAG ks tagc (Cursor w))))
          (Icomp BLOCK (EncReader CHUNK TAG ks tagc (Cursor w)) (Ienc CHUNK (Cursor w) (fun _ => True) (fun s => s) (len w)) si P0)
@@ -473,7 +487,7 @@ Theorem C08_comp_enc_stack_tame :
 Proof. exact comp_enc_stack_tame. Qed.
 Theorem C08_comp_enc_open_total :
   forall BLOCK LIMIT (dec : bytes -> bytes), 0 < BLOCK ->
-  forall CHUNK TAG ks tagc (w : bytes), 0 < CHUNK -> len w < 2 ^ 32 * CHUNK ->
+  forall CHUNK TAG ks tagc (w : bytes), 0 < CHUNK -> len w < 2 ^ 32 * CHUNK -> CHUNK <= 2 ^ 31 ->
     match comp_open LIMIT (EncReader CHUNK TAG ks tagc (Cursor w)) (enc_init0 CHUNK TAG ks tagc w)
             (@mkE (Cursor w) 0 [] 0 0) with
     | (c', Ok _) => exists si,
@@ -484,7 +498,7 @@ Theorem C08_comp_enc_open_total :
     end.
 Proof. exact comp_enc_open_total. Qed.
 Theorem C08_comp_enc_parse_block_total :
-  forall BLOCK dec, 0 < BLOCK -> forall CHUNK TAG ks tagc (w : bytes), 0 < CHUNK -> len w < 2 ^ 32 * CHUNK ->
+  forall BLOCK dec, 0 < BLOCK -> forall CHUNK TAG ks tagc (w : bytes), 0 < CHUNK -> len w < 2 ^ 32 * CHUNK -> CHUNK <= 2 ^ 31 ->
   forall FNMAX TS TC TA TE si P0 c,
     Icomp BLOCK (EncReader CHUNK TAG ks tagc (Cursor w)) (Ienc CHUNK (Cursor w) (fun _ => True) (fun s => s) (len w)) si P0 c ->
     match parse_block FNMAX TS TC TA TE (CompReader BLOCK dec (EncReader CHUNK TAG ks tagc (Cursor w))) c with
